@@ -72,7 +72,7 @@ def run(ctx):
     if ctx.replay:
         return replay(ctx)
     quick = ctx.quick
-    cases, mstats = vlife.stream_tree_cases(ctx, "drop", 2, vlife.pick_mc_shapes(ctx, extra=["coalesce_parts"]), workers=4 if quick else 8)
+    cases, mbg = vlife.stream_tree_cases(ctx, "drop", 2, vlife.pick_mc_shapes(ctx, extra=["coalesce_parts"]), workers=4 if quick else 8)
     by_shape = collections.defaultdict(list)
     for c in cases:
         by_shape[c["shape"]].append(c)
@@ -99,7 +99,7 @@ def run(ctx):
                 if quick and (li + pi + ctx.seed) % 2:
                     continue
                 refs.append({"id": f"sprobe:{sh}:{pool}:{lim}", "sql": b["sql"], "dataset": dsn, "exec": ex, "mem": {"pool": pool, "limit": lim}})
-    ref_res = vlife.run_items(ctx, refs, datasets, "ref", procs=4)
+    ref_res = vlife.run_items(ctx, refs, datasets, "ref", procs=6)
     for it in refs:
         r = ref_res[it["id"]]
         if it["id"].startswith("ref:") and r["outcome"] != "ok":
@@ -150,7 +150,7 @@ def run(ctx):
     for sh, b in SPILL_SHAPES.items():
         dsn = ds_for(b["pl"], 1, nb=8, rb=128)
         probes = [(it, ref_res[it["id"]]) for it in refs if it["id"].startswith(f"sprobe:{sh}:")]
-        spilling = [(it, r) for it, r in probes if r["counters"]["spill_writes"] > 0 and r["outcome"] == "ok"]
+        spilling = [(it, r) for it, r in probes if (r.get("counters") or {}).get("spill_writes", 0) > 0 and r["outcome"] == "ok"]
         if quick:
             spilling = spilling[:1]
         for pit, pr in spilling:
@@ -176,7 +176,7 @@ def run(ctx):
             items.append(it)
             metas[it["id"]] = dict(shape=name, kind="endless_" + mode)
 
-    res = vlife.run_items(ctx, items, datasets, "drops", procs=4 if quick else 6, hang_secs=90, timeout=6000)
+    res = vlife.run_items(ctx, items, datasets, "drops", procs=6, hang_secs=90, budget=600 if quick else 6000)
 
     classes = collections.Counter()
     nontrivial = set()
@@ -228,6 +228,7 @@ def run(ctx):
                                    "observed": {k: v for k, v in r.items() if k != "rows"}, "oracle": msg, "class": meta["kind"]}, key=finding_key(r))
     if sum(v for k, v in classes.items() if k.startswith("endless") and (k.endswith("cancelled") or k.endswith("elapsed"))) < 10:
         raise ToolError("vacuity: endless-source cases did not run")
+    mstats = mbg.join()
     write_evidence(ctx, "fault_enumeration", {
         "evaluations": evaluations, "distinct_nontrivial": len(nontrivial),
         "rule": "case = <query shape, execution variant, memory configuration, drop point k | input error | endless source + cancellation>; shapes, drop points "
